@@ -128,7 +128,7 @@ def inline(sk):
 
 def coq_file(sk):
     out = ['(* GENERATED by tools/lockskel.py from src/api.rs and src/encrypted_header.rs of the repository - do not edit. *)',
-           'From Coq Require Import List String.', 'From CC Require Import Conc.', 'Import ListNotations.', 'Open Scope string_scope.',
+           'From Coq Require Import List String.', 'From CC Require Import Conc.', 'Import ListNotations.', 'Local Open Scope string_scope.',
            'Definition api_skeletons : list (string * program) := [']
     out.append(';\n'.join('  ("%s", [%s])' % (k, '; '.join(v)) for k, v in sk.items()))
     out.append('].')
